@@ -79,6 +79,11 @@ extra = {"C08": "yes: downloads after an abandoned earlier transfer on the same 
          "R15C15": "yes: sequence numbers that are not boundaries - all bytes different (0x01020304, 0x01000100, ...) and random ones of every length - in the notification builder's recorder",
          "R15C17": "caught at once: the position check compares collect() (fold-based) with to_cow / to_string at every position; a check of count / last / nth / fold / size_hint and of a clone taken half-way had just been added too",
          "R15C20": "yes: a call whose visible result (outcome, reply, request payload) is exactly what a pre-state forbidden by the expiry would produce and what no admissible pre-state produces is a C20 rejection, wherever the implementation keeps that state (the hidden snapshot need not agree)",
+         "R16C01": "yes: the HeaderRaw::serialize_into events are recorded in the builder trace too and a misplaced header is a wrong wire image (C01) as well as a buffer matter (C04)",
+         "R16C05": "caught at once, by a measure taken while the change was being written: every number through the second-level accessors (set_content_format / get_content_format were already swept; set_method / get_method, set_status / get_status, the coap-message Code and OptionNumber traits added)",
+         "R16C09": "yes: 'no limit' budgets (usize::MAX, 2^40, 2^32, 2^31+5) for uploads and downloads; recorded budgets are clamped to TLC's integers",
+         "R16C16": "yes: the empty key (with empty and non-empty values) in MC_LinkWrite MODE keys and in the random documents",
+         "R16C19": "yes: code 0.00 in the trait-level set_code calls of MC_Views (after a payload was set)",
          "R4C12": "yes: the two entry points of an exchange as separate steps with equal message ids on different endpoints (model MODE split, deferred responses in the mixed driver); a disturbed other key is reported under C12 in every branch",
          "C20": "yes: expiry under block-wise traffic on other keys (model `Other` now block-wise; driver scenario `expiry-traffic`)"}
 for d in sorted(glob.glob(os.path.join(ROOT, "seeded", "*", "meta.json"))):
